@@ -17,13 +17,9 @@ func Buffered[T any](s Stream[T], size int) Stream[T] {
 		return s
 	}
 
-	// Create a buffered channel of type Result size-1
-	// (-1 since one item will block while trying to write to the channel)
-	// Result will either be T or an upstream error
-	bufferChan := make(chan shpanstream.Result[T], size-1)
-
-	// Create a new stream with the buffer channel as the source
-	bufferChanStream := FromChannel(bufferChan)
+	// The stream reading the buffer channel of the current materialization. The channel is closed by the buffering
+	// goroutine when it is done, so a new channel is created on each open to support reusability (double collection)
+	var bufferChanStream Stream[shpanstream.Result[T]]
 
 	return newStream[T](
 		func(ctx context.Context) (T, error) {
@@ -39,11 +35,19 @@ func Buffered[T any](s Stream[T], size int) Stream[T] {
 			// Unpack the result from the buffer channel to the original type, upstream error or the EOF marker
 			return r.Unpack()
 		},
-		bufferChanStream.allLifecycleElement,
+		nil,
 	).
 		// Attach handler to the Open func of the stream lifecycle to trigger the buffering goroutine
 		WithAdditionalLifecycle(NewLifecycle(
 			func(ctx context.Context) error {
+
+				// Create a buffered channel of type Result size-1
+				// (-1 since one item will block while trying to write to the channel)
+				// Result will either be T or an upstream error
+				bufferChan := make(chan shpanstream.Result[T], size-1)
+
+				// Create a new stream with the buffer channel as the source
+				bufferChanStream = FromChannel(bufferChan)
 
 				// Start Reading from the source stream and populate the buffer channel
 				go func() {
